@@ -10,7 +10,29 @@ def _fsm(tier):
     return [{"engine": "fsm"}]
 
 
+def _model(focus, configs="all", quick_programs=40, thorough_programs=600, steps_q=120, steps_t=220):
+    def f(tier):
+        programs = quick_programs if tier == "quick" else thorough_programs
+        steps = steps_q if tier == "quick" else steps_t
+        return [{"engine": "model", "args": {"focus": focus, "configs": configs, "programs": programs, "steps": steps}}]
+    return f
+
+
+MODEL_ASSUMPTIONS = [
+    "reference model M1 (harness/src/model.rs) written from the API docs and property statements; where the statement is silent it follows the code (DESIGN.md section 7)",
+    "virtual clock (hook H6, thread-local) replaces wall time for the program's thread; the TTL sweeper is not running in these sequential programs",
+    "automatic timestamps are read back through the H4 accessor after each call",
+]
+
 PLAN = {
+    "C01": {"level": "exploration", "engines": _model("all"), "min_nontrivial": 500, "assumptions": MODEL_ASSUMPTIONS},
+    "C10": {"level": "exploration", "engines": _model("layout", quick_programs=24, thorough_programs=400), "min_nontrivial": 300,
+            "assumptions": MODEL_ASSUMPTIONS + ["independent codec M6 (harness/src/indep.rs) is the reader; it shares no code with feoxdb"]},
+    "C11": {"level": "exploration", "engines": _model("ttl"), "min_nontrivial": 300, "assumptions": MODEL_ASSUMPTIONS},
+    "C12": {"level": "exploration", "engines": _model("ts"), "min_nontrivial": 300, "assumptions": MODEL_ASSUMPTIONS},
+    "C13": {"level": "exploration", "engines": _model("mem"), "min_nontrivial": 300, "assumptions": MODEL_ASSUMPTIONS},
+    "C14": {"level": "exploration", "engines": _model("range"), "min_nontrivial": 300, "assumptions": MODEL_ASSUMPTIONS},
+    "C16": {"level": "exploration", "engines": _model("cache", configs="cachepair", quick_programs=60, thorough_programs=1500), "min_nontrivial": 200, "assumptions": MODEL_ASSUMPTIONS},
     "C06": {
         "level": "exploration",
         "engines": _fsm,
